@@ -14,7 +14,7 @@ open PdshVerif.Mod
 open PdshVerif.Gen.Fn.Mod
 
 /-- the C `struct stat` of a model stat record -/
-def toC (st : FStat) : stat := { st_mode := st.mode, st_uid := st.uid }
+@[reducible] def toC (st : FStat) : stat := { (default : stat) with st_mode := st.mode, st_uid := st.uid }
 
 /-- BRIDGE `_dir_permission_error(st, alt_uid) == DIR_OK` ⇔ `dirOk uid alt_uid st`, for all modes and uids -/
 theorem dir_permission_error_bridge (uid owner : Nat) (st : FStat) :
@@ -28,13 +28,36 @@ theorem dir_permission_error_bridge (uid owner : Nat) (st : FStat) :
 /-- the function never has undefined behaviour and returns one of the four codes of `perm_error_t` -/
 theorem dir_permission_error_total (uid owner : Nat) (st : FStat) :
     ∃ r, _dir_permission_error uid (toC st) owner = some r ∧ r ≤ 3 := by
-  simp only [_dir_permission_error]
-  split
-  · exact ⟨1, rfl, by omega⟩
-  · split
-    · exact ⟨2, rfl, by omega⟩
-    · split
-      · exact ⟨3, rfl, by omega⟩
-      · exact ⟨0, rfl, by omega⟩
+  by_cases hd : st.mode &&& 61440 = 16384 <;> by_cases h0 : st.uid = 0 <;> by_cases h1 : st.uid = uid <;>
+    by_cases h2 : st.uid = owner <;> by_cases hw : st.mode &&& 2 = 0 <;> by_cases hs : st.mode &&& 512 = 0 <;>
+    simp [_dir_permission_error, toC, hd, h0, h1, h2, hw, hs]
+
+/-! ### the per-file tests of `_mod_load_dynamic_modules` (three `if` conditions INSIDE the readdir loop,
+    translated as expressions: registry entries `mod_file_isreg`, `mod_file_owner`, `mod_file_mode`) -/
+
+/-- BRIDGE `!S_ISREG(st.st_mode)` = `!isReg` -/
+theorem mod_file_isreg_bridge (st : FStat) : mod_file_isreg (toC st) = some (!isReg st.mode) := by
+  simp only [mod_file_isreg, toC, isReg, PdshVerif.Gen.MO_S_IFMT, PdshVerif.Gen.MO_S_IFREG]
+  by_cases h : st.mode &&& 61440 = 32768 <;> simp [h]
+
+/-- BRIDGE the owner test of a module file = `!ownerOk` (`getuid()` is a parameter) -/
+theorem mod_file_owner_bridge (uid owner : Nat) (st : FStat) :
+    mod_file_owner uid (toC st) owner = some (!ownerOk uid owner st) := by
+  simp only [mod_file_owner, toC, ownerOk]
+  by_cases h0 : st.uid = 0 <;> by_cases h1 : st.uid = uid <;> by_cases h2 : st.uid = owner <;> simp [h0, h1, h2]
+
+/-- BRIDGE `st.st_mode & S_IWOTH` = the world-writable test of `fileOk` -/
+theorem mod_file_mode_bridge (st : FStat) : mod_file_mode (toC st) = some (st.mode &&& S_IWOTH != 0) := by
+  simp only [mod_file_mode, toC, S_IWOTH, PdshVerif.Gen.MO_S_IWOTH]
+  by_cases h : st.mode &&& 2 = 0 <;> simp [h]
+
+/-- the model's `fileOk` is exactly "none of the three `continue` tests of the code fires" -/
+theorem file_ok_bridge (uid owner : Nat) (st : FStat) :
+    fileOk uid owner st = true ↔
+      (mod_file_isreg (toC st) = some false ∧ mod_file_owner uid (toC st) owner = some false ∧
+       mod_file_mode (toC st) = some false) := by
+  rw [mod_file_isreg_bridge, mod_file_owner_bridge, mod_file_mode_bridge]
+  unfold fileOk
+  cases isReg st.mode <;> cases ownerOk uid owner st <;> by_cases h : st.mode &&& S_IWOTH = 0 <;> simp [h]
 
 end PdshVerif.Bridge.Mod
